@@ -49,6 +49,8 @@ type VerState struct {
 	KV      map[string][]byte
 	Touched map[string]bool // keys written (Set) or removed in this version, from the op log (C15)
 	Normal  bool            // the version's writes were in normal form (sorted, one op per key)
+	Writes  []Op            // the effective writes of this version in order (replayed by the op "replay")
+	Logged  bool            // Writes is the complete log (false for legacy / imported versions)
 }
 
 type Violation struct {
@@ -77,6 +79,7 @@ type Observers struct {
 }
 
 type World struct {
+	WBaseLogged bool // the working tree was started from a retained version by setWorkingFrom (its op log is complete)
 	Prop    string
 	Backend string // mem | trace | prefix | level
 	Dir     string
@@ -265,6 +268,7 @@ func (w *World) setWorkingFrom(v int64) {
 	w.WTouched = map[string]bool{}
 	w.WOps = nil
 	w.Dirty = false
+	w.WBaseLogged = true
 }
 
 func (w *World) rawDump() map[string][]byte { return DumpDB(w.DB) }
@@ -326,6 +330,26 @@ func (w *World) Apply(op Op) (v *Violation) {
 		}
 	case "save":
 		return w.applySave(op)
+	case "replay":
+		// a restarted node replays the block it already has: the recorded writes of the next existing version on
+		// top of the loaded older version, then the commit (idempotent branch of SaveVersion)
+		vs := w.Vers[w.WorkingVersion()]
+		if vs == nil || !vs.Logged || w.Dirty {
+			return w.viol("harness", "replay not applicable at working version %d", w.WorkingVersion())
+		}
+		for _, wr := range vs.Writes {
+			n := len(w.Log)
+			x := w.Apply(wr)
+			w.Log = w.Log[:n] // the history records the one step "replay"
+			if x != nil {
+				return x
+			}
+		}
+		w.Labels["replay_existing_version"] = true
+		if len(vs.Writes) > 0 {
+			w.Labels["replay_with_writes"] = true
+		}
+		return w.applySave(Op{Kind: "save"})
 	case "rollback":
 		t.Rollback()
 		w.setWorkingFrom(w.Cur)
@@ -531,7 +555,7 @@ func (w *World) applySave(op Op) *Violation {
 		w.Labels["leaf_root_version"] = true
 	}
 	rhash(w.WRoot, wv, true)
-	w.Vers[wv] = &VerState{Root: w.WRoot, KV: copyKV(w.WKV), Touched: w.WTouched, Normal: isNormalForm(w.WOps)}
+	w.Vers[wv] = &VerState{Root: w.WRoot, KV: copyKV(w.WKV), Touched: w.WTouched, Normal: isNormalForm(w.WOps), Writes: append([]Op{}, w.WOps...), Logged: w.WBaseLogged}
 	if w.First == 0 || len(w.Vers) == 1 {
 		w.First = wv
 	}
